@@ -63,9 +63,21 @@ func (x *Exec) afterHooksFor(call *ast.CallExpr, fr *Frame) []*AfterHook {
 	if nm == "" {
 		return nil
 	}
+	// "after next" applies to every call of a pull function (the first result of iter.Pull2: a parameterless function
+	// variable whose last result is the ok flag), whatever the local that holds it is called
+	isPull := false
+	if id, ok := ast.Unparen(call.Fun).(*ast.Ident); ok {
+		if v, ok := fr.info.Uses[id].(*types.Var); ok {
+			if sig, ok := v.Type().Underlying().(*types.Signature); ok && sig.Params().Len() == 0 && sig.Results().Len() >= 2 {
+				if b, ok := sig.Results().At(sig.Results().Len() - 1).Type().Underlying().(*types.Basic); ok && b.Kind() == types.Bool {
+					isPull = true
+				}
+			}
+		}
+	}
 	var out []*AfterHook
 	for _, h := range x.C.Afters {
-		if h.Callee == nm {
+		if h.Callee == nm || (isPull && h.Callee == "next") {
 			out = append(out, h)
 		}
 	}
@@ -85,6 +97,39 @@ func (x *Exec) applyAfterHooks(hooks []*AfterHook, call *ast.CallExpr, st *St, f
 		} else if v.T != nil || v.Fields != nil {
 			extra["result"] = v
 			extra["result0"] = v
+		}
+	}
+	// arg0, arg1, ... and recv: the argument / receiver expressions of the call, when they are plain variables or field
+	// selections (evaluated after the call), so that a clause need not name the locals of the function under contract
+	plain := func(e ast.Expr) bool {
+		ok := true
+		ast.Inspect(e, func(n ast.Node) bool {
+			switch n.(type) {
+			case *ast.CallExpr, *ast.FuncLit, *ast.UnaryExpr, *ast.BinaryExpr, *ast.IndexExpr, *ast.SliceExpr, *ast.CompositeLit, *ast.TypeAssertExpr:
+				ok = false
+			}
+			return ok
+		})
+		return ok
+	}
+	try := func(name string, e ast.Expr) {
+		if e == nil || !plain(e) {
+			return
+		}
+		defer func() { recover() }()
+		saved := x.Obls
+		v := x.evalPure(e, st.clone(), fr)
+		x.Obls = saved
+		if v != nil {
+			extra[name] = v
+		}
+	}
+	for i, a := range call.Args {
+		try(fmt.Sprintf("arg%d", i), a)
+	}
+	if se, ok := ast.Unparen(call.Fun).(*ast.SelectorExpr); ok {
+		if sel := fr.info.Selections[se]; sel != nil && sel.Kind() == types.MethodVal {
+			try("recv", se.X)
 		}
 	}
 	env := &CEnv{X: x, Names: x.localNames(st, fr, extra), St: st, Pkg: x.Fn.Pkg}
